@@ -56,6 +56,10 @@ ecs_world! {
     ecs_archetype!(Ap, Ta);
 }
 
+/// A user type that converts into an archetype's Components struct through a user-written `From`
+/// impl (legal: the struct is generated in the user's crate). The conversion can be told to panic.
+pub struct Conv<C>(pub C);
+
 pub const NARCH: usize = 4;
 pub const ARCH_NAMES: [&str; NARCH] = ["Ap", "Aq", "Ar", "Aw"];
 #[cfg(not(vw_shape_b))]
@@ -249,18 +253,23 @@ macro_rules! aops {
                 by_field
             }
             fn h_create(w: &mut VW, data: Self::Components, via: u8) -> Tok {
-                match via % 4 {
+                match via % 7 {
                     0 => tok(w.create::<$A>(data)),
                     1 => tok(w.archetype_mut::<$A>().create(data)),
                     2 => tok(w.$f.create(data.into_tuple())),
-                    _ => tok(w.create::<$A>(data.into_tuple())),
+                    3 => tok(w.create::<$A>(data.into_tuple())),
+                    4 => tok(w.$f.create(Conv(data))),
+                    5 => tok(w.archetype_mut::<$A>().create(Conv(data))),
+                    _ => tok(w.create::<$A>(Conv(data))),
                 }
             }
             fn h_create_within(w: &mut VW, data: Self::Components, via: u8) -> Result<Tok, Self::Components> {
-                let r = match via % 3 {
+                let r = match via % 5 {
                     0 => w.create_within_capacity::<$A>(data),
                     1 => w.archetype_mut::<$A>().create_within_capacity(data),
-                    _ => w.$f.create_within_capacity(data.into_tuple()),
+                    2 => w.$f.create_within_capacity(data.into_tuple()),
+                    3 => w.$f.create_within_capacity(Conv(data)),
+                    _ => w.create_within_capacity::<$A>(Conv(data)),
                 };
                 r.map(tok)
             }
@@ -395,6 +404,13 @@ macro_rules! aops {
                     }
                     i += 1;
                 )*
+            }
+        }
+
+        impl From<Conv<$AC>> for $AC {
+            fn from(c: Conv<$AC>) -> Self {
+                if reg::take_conv_fault() { panic!("injected conversion fault"); }
+                c.0
             }
         }
 
